@@ -29,21 +29,22 @@ variable (E : Env)
 the prepared, type-checked value: `obj[a := prepared v]`. -/
 theorem setAttrV_is_assign (m c : Nat) (fs : Flds) (a : Nat) (v : Val) (sp : AttrSpec)
     (ha : E.attr? c a = some sp) (hok : Spec.AssignOk E sp (.inst c fs) v) :
-    setAttrV E (m+3) (.inst c fs) a v = Spec.assignV E m (.inst c fs) sp v := by
+    setAttrV E (m+3) false (.inst c fs) a v = Spec.assignV E m (.inst c fs) sp v := by
   rw [setAttrV]
   simp only [ha]
   rw [prepareAttrValue_plain E m _ sp v hok.1 hok.2]
   rfl
 
 /-- Explicit form for a scalar attribute: with no dict and no collection involved,
-`obj.a = v` stores exactly `prep v`, or raises TypeError when that does not conform. -/
+`obj.a = v` stores exactly `prep v` (and puts the dependants of `a` back at their defaults), or raises
+TypeError when that does not conform. -/
 theorem assign_scalar_explicit (m c : Nat) (fs : Flds) (a : Nat) (v : Val) (sp : AttrSpec)
     (ha : E.attr? c a = some sp) (hok : Spec.AssignOk E sp (.inst c fs) v)
     (hnd : Spec.isDict (Spec.prep E sp (.inst c fs) v) = false) (hnc : sp.ty.isCollection = false)
     (hns : (Spec.prep E sp (.inst c fs) v).isSent = false) :
-    setAttrV E (m+3) (.inst c fs) a v =
+    setAttrV E (m+3) false (.inst c fs) a v =
       if conforms E sp.ty (Spec.prep E sp (.inst c fs) v) then
-        .ok (.inst c (fs.set sp.name (Spec.prep E sp (.inst c fs) v)))
+        .ok (E.invalidate (.inst c (fs.set sp.name (Spec.prep E sp (.inst c fs) v))) sp.name)
       else .error .typeError := by
   rw [setAttrV_is_assign E m c fs a v sp ha hok]
   unfold Spec.assignV Spec.prepared Spec.castDict
@@ -220,7 +221,7 @@ theorem impl_refines_doc (m : Nat) (recv : Val) (c : Call) (hdoc : Spec.Document
           | error e => rfl
           | ok pv =>
             simp only []
-            cases mutateAttrV E recv sp pv <;> rfl
+            cases mutateAttrV E false recv sp pv <;> rfl
       · simp [hc, lift, Spec.noop]
   | setattr a v =>
     simp only []
@@ -284,7 +285,7 @@ theorem impl_refines_doc (m : Nat) (recv : Val) (c : Call) (hdoc : Spec.Document
         | error e => rfl
         | ok pv =>
           simp only []
-          generalize mutateAttrV E recv sp pv = r
+          generalize mutateAttrV E false recv sp pv = r
           cases r <;> rfl
   | update v kw =>
     simp only []
@@ -669,7 +670,7 @@ theorem update_is_fold_with (n c : Nat) (fs : Flds) (kw : Kw) (hne : kw ≠ [])
   have hkwe : kw.isEmpty = false := by cases kw <;> simp_all
   -- left-hand side: the merge fold
   have hL : resultE (run E (n+2) (.inst c fs) { op := .update MISSING kw })
-      = kw.foldlM (fun acc kv => setAttrV E (n+1) acc kv.1 kv.2) (.inst c fs) := by
+      = kw.foldlM (fun acc kv => setAttrV E (n+1) false acc kv.1 kv.2) (.inst c fs) := by
     unfold run
     simp only [updateTop, hk, Bool.not_true, Bool.false_eq_true, if_false]
     rw [mutateValue_top_update E n _ _ kw hU]
@@ -677,14 +678,14 @@ theorem update_is_fold_with (n c : Nat) (fs : Flds) (kw : Kw) (hne : kw ≠ [])
     have : (decide (Val.inst c fs = NONE) || decide (Val.inst c fs = MISSING)) = false := by
       simp
     simp only [this, Bool.false_eq_true, if_false]
-    have hf : kw.foldlM (fun acc kv => if kv.2 = MISSING then Except.ok acc else setAttrV E (n+1) acc kv.1 kv.2)
+    have hf : kw.foldlM (fun acc kv => if kv.2 = MISSING then Except.ok acc else setAttrV E (n+1) false acc kv.1 kv.2)
           (Val.inst c fs)
-        = kw.foldlM (fun acc kv => setAttrV E (n+1) acc kv.1 kv.2) (Val.inst c fs) := by
+        = kw.foldlM (fun acc kv => setAttrV E (n+1) false acc kv.1 kv.2) (Val.inst c fs) := by
       apply foldlM_congr
       intro acc kv hkv
       simp [hm kv hkv]
     rw [hf]
-    cases kw.foldlM (fun acc kv => setAttrV E (n+1) acc kv.1 kv.2) (Val.inst c fs) with
+    cases kw.foldlM (fun acc kv => setAttrV E (n+1) false acc kv.1 kv.2) (Val.inst c fs) with
     | error e => rfl
     | ok u => simp [lift, resultE, outcomeOf, hkwe]
   rw [hL]
@@ -729,8 +730,60 @@ theorem update_is_fold_with (n c : Nat) (fs : Flds) (kw : Kw) (hne : kw ≠ [])
         by_cases h1 : pv.isSent = true
         · simp [h1, lift, resultE] at hr; subst hr; exact ⟨fs', rfl⟩
         · by_cases h2 : conforms E sp.ty pv = true
-          · simp [h1, h2, lift, resultE] at hr; subst hr; exact ⟨_, rfl⟩
+          · simp [h1, h2, lift, resultE] at hr; subst hr
+            exact isInst_invalidate E _ (isInst_setField _ _ ⟨fs', rfl⟩)
           · simp [h1, h2, lift, resultE] at hr
+
+/-! ## `invalidated_by`: a write puts the dependants back at their defaults — also a write of an equal value -/
+
+/-- **write_resets_dependants.** After any successful `with_a(v)` (copy or in place; `obj.a = v` by
+`setattr_is_with`), every attribute `d` of the receiver's class declared `invalidated_by=[…, a, …]` holds
+its default in the resulting state — whatever the written value is, in particular when it equals the value
+stored before. (`d`'s default conforms to its annotation or is absent.) -/
+theorem write_resets_dependants (n c : Nat) (fs : Flds) (cs : ClassSpec) (a d : Nat) (spa spd : AttrSpec) (v pv : Val)
+    (i : Bool) (hcs : E.cls? c = some cs)
+    (hspa : E.attr? c a = some spa) (hspd : E.attr? c d = some spd)
+    (hdep : spd.invalidatedBy.contains a = true) (hne : d ≠ a) (hmem : d ∈ cs.attrs.map (·.name))
+    (hok : spd.defaultVal = MISSING ∨ conforms E spd.ty spd.defaultVal = true)
+    (hpv : prepareAttrValue E n (.inst c fs) spa v [] = .ok pv) (hns : pv.isSent = false)
+    (hconf : conforms E spa.ty pv = true) :
+    (run E n (.inst c fs) { op := .withA a v [], inplace := i }).result.getAttr d = spd.defaultVal := by
+  have hname : spa.name = a := by
+    unfold Env.attr? at hspa
+    rw [hcs] at hspa
+    simp only [Option.bind, ClassSpec.attr?] at hspa
+    simpa using List.find?_some hspa
+  have hlen : cs.attrs.length = (cs.attrs.length - 1) + 1 := by
+    have : 0 < cs.attrs.length := by
+      cases hl : cs.attrs with
+      | nil => rw [hl] at hmem; cases hmem
+      | cons _ _ => simp
+    omega
+  have hres : (E.invalidate ((Val.inst c fs).setField spa.name pv) spa.name).getAttr d = spd.defaultVal := by
+    unfold Env.invalidate
+    simp only [Val.setField, hcs]
+    rw [hlen, hname]
+    exact (invalidateAux_resets E (cs.attrs.map (·.name)) _ _ ⟨_, rfl⟩ hspd hdep hne hmem hok).2
+  unfold run
+  simp only [specOf, classOf, Option.bind, hspa, withAttr, List.map_nil, kwOk, List.isEmpty_nil, Bool.true_or,
+    Bool.not_true, Bool.false_eq_true, if_false, hpv, mutateAttr, hns, hconf]
+  cases i <;> simpa [lift, Outcome.result] using hres
+
+/-- a decided instance: `a1 : int = 10` is `invalidated_by=['a0']`; it was moved to 99; writing `a0 = 1` while
+`a0` already is 1 puts `a1` back to 10 -/
+def Einv : Env :=
+  { classes := [{ id := 0,
+                  attrs := [{ name := 0, ty := .int, default := some (.sc (.int 1)) },
+                            { name := 1, ty := .int, default := some (.sc (.int 10)), invalidatedBy := [0] },
+                            { name := 2, ty := .int, invalidatedBy := [1] }],
+                  initOrder := [0, 1, 2] }],
+    prep := fun _ _ v => v }
+
+example :
+    run Einv 3 (.inst 0 (.cons 0 (.sc (.int 1)) (.cons 1 (.sc (.int 99)) (.cons 2 (.sc (.int 5)) .nil))))
+        { op := .withA 0 (.sc (.int 1)) [], inplace := true }
+      = ⟨.inst 0 (.cons 0 (.sc (.int 1)) (.cons 1 (.sc (.int 10)) (.cons 2 MISSING .nil))), .receiver⟩ := by
+  decide
 
 /-! ## `_if=False`, UNCHANGED, MISSING -/
 
